@@ -924,6 +924,52 @@ fn frags3(out: &mut Out, enc: &mut Encapsulator<DefaultCrc>, pdu: &Pdu, id: u8, 
 }
 
 fn interleave_special(out: &mut Out, rng: &mut Rng, thorough: bool) {
+    // (0) slot counts around the size of the fragment-id space: with S slots the ids 0 and S (254, 255) share a
+    // slot; a stray intermediate / end packet of the aliasing id is refused and leaves the open train alone
+    for slots in [254usize, 255, 256, 300] {
+        for variant in 0..4usize {
+            let (swap, strays) = (variant % 2 == 1, variant < 2);
+            let alias: u8 = if slots < 256 { slots as u8 } else { 255 };
+            let (open_id, stray_id) = if swap { (alias, 0u8) } else { (0u8, alias) };
+            let mgr = std_mgr();
+            out.begin("interleave", Obj::new().str("what", "slots_near_256").boolean("lock", false).raw("rx", &jrxcfg(slots, PDU_SIZE, &mgr).end()));
+            let mut rx: Rx<DefaultCrc> = Rx::new(slots, PDU_SIZE, DefaultCrc {}, mgr);
+            for i in 0..3 {
+                rx.ev_provision(out, PDU_SIZE + i);
+            }
+            rx.note_id(open_id);
+            rx.note_id(stray_id);
+            let pdu = rng.bytes(30);
+            let t = train(&pdu, &[1, 2, 3, 4, 5, 6], false, 0x0800, open_id, &[10, 10]);
+            let stray_i = P { kind: 0, lt: 3, fragid: stray_id, tl: 0, ptype: 0, label: vec![], chain: vec![], payload: vec![1, 2, 3], crc: 0, gse_len: None }.ser();
+            let stray_e = P { kind: 1, lt: 3, fragid: stray_id, tl: 0, ptype: 0, label: vec![], chain: vec![], payload: vec![1, 2, 3], crc: 7, gse_len: None }.ser();
+            feed(out, &mut rx, &t[0].ser(), vec![("ilv", "true".to_string())]);
+            if strays {
+                feed(out, &mut rx, &stray_i, vec![("ilv", "true".to_string())]);
+            }
+            feed(out, &mut rx, &t[1].ser(), vec![("ilv", "true".to_string())]);
+            if strays {
+                feed(out, &mut rx, &stray_e, vec![("ilv", "true".to_string())]);
+            }
+            // the train's own end fragment under the other id (payload and CRC are right, the id is not): nothing may
+            // be delivered at a fragment id that never had a first fragment
+            let mut wrong = t[2].clone();
+            wrong.fragid = stray_id;
+            feed(out, &mut rx, &wrong.ser(), vec![("ilv", "true".to_string())]);
+            feed(out, &mut rx, &t[2].ser(), vec![("ilv", "true".to_string())]);
+            // when the two ids have slots of their own, a second train runs beside the first
+            let pdu2 = rng.bytes(24);
+            let t2 = train(&pdu2, &[7, 7, 1], false, 0x86DD, stray_id, &[8, 8]);
+            let t3 = train(&rng.bytes(24), &[7, 7, 1], false, 0x86DD, open_id, &[8, 8]);
+            for (a, b) in t2.iter().zip(t3.iter()) {
+                feed(out, &mut rx, &a.ser(), vec![("ilv", "true".to_string())]);
+                if slots >= 256 {
+                    feed(out, &mut rx, &b.ser(), vec![("ilv", "true".to_string())]);
+                }
+            }
+            rx.ev_drain(out);
+        }
+    }
     // (1) a memory with one slot per fragment id: ids 0, 255 and 128 never share a slot
     for rep in 0..(if thorough { 12 } else { 4 }) {
         let mgr = std_mgr();
@@ -1060,8 +1106,22 @@ pub fn frames(out: &mut Out, seed: u64, thorough: bool) {
                     }
                 }
                 // occasionally a packet the receiver must reject, consuming its own length
-                if rng.chance(1, 5) {
-                    let bad: Vec<u8> = match rng.below(6) {
+                // (the first 16 sessions put one after every packet, each kind in turn)
+                if rng.chance(1, 5) || fi < 16 {
+                    let bad: Vec<u8> = match if fi < 16 { fi % 8 } else { rng.below(8) } {
+                        6 | 7 => {
+                            // a train whose last packet no longer fits the storage: first fragment of 10 bytes, then an
+                            // end (6) or intermediate (7) fragment carrying 60 more - larger than what is left
+                            let big: Vec<u8> = (0..70u8).collect();
+                            let tr = if fi % 8 == 6 || (fi >= 16 && rng.chance(1, 2)) {
+                                train(&big, &[6, 6, 6], false, 0x0800, 96, &[10])
+                            } else {
+                                train(&big, &[6, 6, 6], false, 0x0800, 96, &[10, 60])
+                            };
+                            let mut v = tr[0].ser();
+                            v.extend(tr[1].ser());
+                            v
+                        }
                         4 | 5 => {
                             // a valid first fragment of another PDU: with every buffer attached to a reassembly it is
                             // rejected for lack of storage and must consume exactly its own length
